@@ -25,11 +25,13 @@ def _guards(ctx):
     out = []
     for m, qual, fn in evalcore.recursion_functions(ctx):
         for n in walk_local(fn):
-            if isinstance(n, ast.If) and isinstance(n.test, ast.Compare) and len(n.test.ops) == 1 \
-                    and isinstance(n.test.ops[0], ast.In) and flow.only_raises(n.body):
-                coll = n.test.comparators[0]
+            if not isinstance(n, ast.If) or not flow.only_raises(n.body):
+                continue
+            test = flow._expand_test(n.test, fn, n)
+            if isinstance(test, ast.Compare) and len(test.ops) == 1 and isinstance(test.ops[0], ast.In):
+                coll = evalcore.deref(test.comparators[0], fn)
                 if evalcore.self_attr(coll):
-                    out.append((m, qual, fn, n, n.test.left, coll))
+                    out.append((m, qual, fn, n, test.left, coll))
     return out
 
 
@@ -108,7 +110,7 @@ def rule_1(ctx):
                    'the exception raised by the guard does not mention a cycle / circular reference')
         # inserted key == tested key, insertion after the guard
         ins = [c for c in flow.calls_in(fn) if isinstance(c.func, ast.Attribute) and c.func.attr in ('append', 'add')
-               and ast.dump(c.func.value) == ast.dump(coll)]
+               and ast.dump(evalcore.deref(c.func.value, fn)) == ast.dump(coll)]
         ok = bool(ins) and all(ast.dump(c.args[0]) == ast.dump(key) and flow.pos(c) > flow.pos(ifn) for c in ins)
         ctx.expect(ok, ifn, f'guard on self.{attr}: tested key is the inserted key',
                    'the address inserted into the collection is not the one the guard tests (or is inserted before the test)')
@@ -131,21 +133,21 @@ def _paired_insertions(ctx):
         if cref in per_call:
             continue
         for c in flow.calls_in(fn):
-            if isinstance(c.func, ast.Attribute) and c.func.attr in ('append', 'add') and evalcore.self_attr(c.func.value):
+            if isinstance(c.func, ast.Attribute) and c.func.attr in ('append', 'add') and evalcore.self_attr(evalcore.deref(c.func.value, fn)):
                 st = flow.stmt_of(c)
                 blk = flow._block_of(st)
                 ok, why = False, 'insertion is not a statement of a block'
                 if blk:
                     _, _, lst, i = blk
                     nxt = lst[i + 1] if i + 1 < len(lst) else None
-                    coll_dump = ast.dump(c.func.value)
+                    coll_dump = ast.dump(evalcore.deref(c.func.value, fn))
                     if isinstance(nxt, ast.Try) and any(
                             isinstance(x, ast.Call) and isinstance(x.func, ast.Attribute) and x.func.attr in ('pop', 'remove', 'discard')
-                            and ast.dump(x.func.value) == coll_dump for f_ in nxt.finalbody for x in ast.walk(f_)):
+                            and ast.dump(evalcore.deref(x.func.value, fn)) == coll_dump for f_ in nxt.finalbody for x in ast.walk(f_)):
                         ok, why = True, ''
                     else:
                         removal = [x for x in ast.walk(fn) if isinstance(x, ast.Call) and isinstance(x.func, ast.Attribute)
-                                   and x.func.attr in ('pop', 'remove', 'discard') and ast.dump(x.func.value) == coll_dump]
+                                   and x.func.attr in ('pop', 'remove', 'discard') and ast.dump(evalcore.deref(x.func.value, fn)) == coll_dump]
                         if not removal:
                             why = (f'`{ast.unparse(c)}` is never undone: a cell evaluated once stays marked, so a second '
                                    'reference (diamond, repeated reference) or a later evaluation reports a cycle')
